@@ -309,6 +309,11 @@ func TestVerif_C14(t *testing.T) {
 						res.Hit("n/a")
 						continue
 					}
+					// the connection manager samples (reads and clears) the traffic marks when its timer fires; do the same so
+					// that a liveness update by the packet under test is visible in the projection
+					if w.B.Ctrl.VerifSampleLiveness() > 0 {
+						res.Hit("liveness-marks-cleared")
+					}
 					before := w.project()
 					w.B.TakeTun()
 					w.B.TakeUDP()
